@@ -812,6 +812,9 @@ func (c *Conn) flush() error {
 	}
 
 	if len(c.writeList) == 0 {
+		// Nothing to send: a dialed connection is registered with the
+		// writing event set, take it off like after a complete flush.
+		c.resetRead()
 		return nil
 	}
 
